@@ -187,6 +187,7 @@ func NewMapPollard(full bool) MapPollard {
 func (m *MapPollard) Modify(adds []Leaf, delHashes []Hash, proof Proof) error {
 	m.rwLock.Lock()
 	defer m.rwLock.Unlock()
+	verifPoint(m, "Modify:locked")
 
 	err := m.remove(proof, delHashes)
 	if err != nil {
@@ -908,6 +909,7 @@ func (m *MapPollard) undoAdd(numAdds uint64, origTargets []uint64, origPrevRoots
 func (m *MapPollard) Undo(numAdds uint64, proof Proof, hashes, origPrevRoots []Hash) error {
 	m.rwLock.Lock()
 	defer m.rwLock.Unlock()
+	verifPoint(m, "Undo:locked")
 
 	err := m.undoAdd(numAdds, proof.Targets, origPrevRoots)
 	if err != nil {
@@ -939,6 +941,7 @@ func (m *MapPollard) Undo(numAdds uint64, proof Proof, hashes, origPrevRoots []H
 func (m *MapPollard) Prove(proveHashes []Hash) (Proof, error) {
 	m.rwLock.RLock()
 	defer m.rwLock.RUnlock()
+	verifPoint(m, "Prove:locked")
 
 	// Check that the targets are proveable.
 	if !m.cached(proveHashes) {
@@ -996,6 +999,7 @@ func (m *MapPollard) Prove(proveHashes []Hash) (Proof, error) {
 func (m *MapPollard) VerifyPartialProof(origTargets []uint64, delHashes, proofHashes []Hash, remember bool) error {
 	m.rwLock.Lock()
 	defer m.rwLock.Unlock()
+	verifPoint(m, "VerifyPartialProof:locked")
 
 	// Sort targets first. Copy to avoid mutating the original.
 	targets := copySortedFunc(origTargets, uint64Cmp)
@@ -1042,6 +1046,7 @@ func (m *MapPollard) GetMissingPositions(origTargets []uint64) []uint64 {
 
 	m.rwLock.RLock()
 	defer m.rwLock.RUnlock()
+	verifPoint(m, "GetMissingPositions:locked")
 
 	// Sort targets first. Copy to avoid mutating the original.
 	targets := copySortedFunc(origTargets, uint64Cmp)
@@ -1075,6 +1080,7 @@ func (m *MapPollard) GetMissingPositions(origTargets []uint64) []uint64 {
 func (m *MapPollard) Verify(delHashes []Hash, proof Proof, remember bool) error {
 	m.rwLock.Lock()
 	defer m.rwLock.Unlock()
+	verifPoint(m, "Verify:locked")
 
 	return m.verify(delHashes, proof, remember)
 }
@@ -1135,6 +1141,7 @@ func (m *MapPollard) trimProofPos(proofPos []uint64, numLeaves uint64) []uint64 
 func (m *MapPollard) Ingest(delHashes []Hash, proof Proof) error {
 	m.rwLock.Lock()
 	defer m.rwLock.Unlock()
+	verifPoint(m, "Ingest:locked")
 
 	return m.ingest(delHashes, proof)
 }
@@ -1206,6 +1213,7 @@ func (m *MapPollard) Prune(hashes []Hash) error {
 
 	m.rwLock.Lock()
 	defer m.rwLock.Unlock()
+	verifPoint(m, "Prune:locked")
 
 	for _, hash := range hashes {
 		pos, found := m.CachedLeaves.Get(hash)
@@ -1243,6 +1251,7 @@ func (m *MapPollard) Prune(hashes []Hash) error {
 func (m *MapPollard) GetRoots() []Hash {
 	m.rwLock.RLock()
 	defer m.rwLock.RUnlock()
+	verifPoint(m, "GetRoots:locked")
 
 	roots, _ := m.getRoots()
 	return roots
@@ -1269,6 +1278,7 @@ func (m *MapPollard) getRoots() ([]Hash, []uint64) {
 func (m *MapPollard) GetHash(pos uint64) Hash {
 	m.rwLock.RLock()
 	defer m.rwLock.RUnlock()
+	verifPoint(m, "GetHash:locked")
 
 	// Only translate the positions that exist in the forest. Positions outside
 	// of it can't be translated and may end up pointing to an unrelated node.
@@ -1303,6 +1313,7 @@ func (m *MapPollard) getLeafHashPosition(hash Hash) (uint64, bool) {
 func (m *MapPollard) GetLeafPosition(hash Hash) (uint64, bool) {
 	m.rwLock.RLock()
 	defer m.rwLock.RUnlock()
+	verifPoint(m, "GetLeafPosition:locked")
 
 	return m.getLeafHashPosition(hash)
 }
@@ -1317,6 +1328,7 @@ func (m *MapPollard) highestPos() uint64 {
 func (m *MapPollard) GetNumLeaves() uint64 {
 	m.rwLock.RLock()
 	defer m.rwLock.RUnlock()
+	verifPoint(m, "GetNumLeaves:locked")
 
 	return m.NumLeaves
 }
@@ -1325,6 +1337,7 @@ func (m *MapPollard) GetNumLeaves() uint64 {
 func (m *MapPollard) GetTreeRows() uint8 {
 	m.rwLock.RLock()
 	defer m.rwLock.RUnlock()
+	verifPoint(m, "GetTreeRows:locked")
 
 	return m.TotalRows
 }
@@ -1333,6 +1346,7 @@ func (m *MapPollard) GetTreeRows() uint8 {
 func (m *MapPollard) GetStump() Stump {
 	m.rwLock.RLock()
 	defer m.rwLock.RUnlock()
+	verifPoint(m, "GetStump:locked")
 
 	return m.getStump()
 }
@@ -1351,6 +1365,7 @@ func (m *MapPollard) getStump() Stump {
 func (m *MapPollard) GetLeafHashPositions(hashes []Hash) []uint64 {
 	m.rwLock.RLock()
 	defer m.rwLock.RUnlock()
+	verifPoint(m, "GetLeafHashPositions:locked")
 
 	positions := make([]uint64, len(hashes))
 	for i := range positions {
@@ -1381,6 +1396,7 @@ func NewMapPollardFromRoots(rootHashes []Hash, numLeaves uint64, full bool) MapP
 func (m *MapPollard) Write(w io.Writer) (int, error) {
 	m.rwLock.RLock()
 	defer m.rwLock.RUnlock()
+	verifPoint(m, "Write:locked")
 
 	totalBytes := 0
 
@@ -1474,6 +1490,7 @@ func (m *MapPollard) Write(w io.Writer) (int, error) {
 func (m *MapPollard) Read(r io.Reader) (int, error) {
 	m.rwLock.Lock()
 	defer m.rwLock.Unlock()
+	verifPoint(m, "Read:locked")
 
 	totalBytes := 0
 
